@@ -7,6 +7,8 @@ from ..source import src, dotted
 from ..datafiles import libraries
 
 EXPLANATION = (
+    'Data: D04.7 the remap tables of every shipped scheme are chain-free (with a chain, whether the second substitution happens depends on the order in which the groups of the components are met). '
+
     "Only the repository-side locality conditions are decided (that RDKit "
     "restricts a connected query to one component is trusted). R04.1: "
     "every loop of Scheme.py over atoms, neighbours, patterns, descriptors, "
@@ -162,4 +164,7 @@ def run(chk, repo, tier):
     for q in ('ConstraintNumber.__init__', 'ConstraintNumber.__call__'):
         _rv.check(chk, 'R04.6', repo, 'pgradd/RDkitWrapper/MolQuery.py', q,
                   '%s is unchanged from its reviewed reference' % q)
+    # ---- the scheme files themselves ------------------------------------
+    from .. import dataaudit
+    dataaudit.remaps_chain_free(chk, repo, 'D04.7')
 
